@@ -247,6 +247,51 @@ def run(tier, seed):
                                                        "why": "any_iter over a regular generator%s, closed after %d of %d items: yielded %r, the generator then still holds %r (expected the remaining %d items) (%r)"
                                                        % (" given through an awaitable" if outer else "", take, n, got, rest, n - take, err)})
                     break
+    # ---- any_iter: plain items are passed through whatever they are -- also *classes* whose instances are awaitable (the
+    # class object itself is not an awaitable), and sync() of a class whose instances have an async __call__ (calling the
+    # class is a synchronous call that gives an instance)
+    import asyncio as _asyncio
+
+    class Job:
+        def __await__(self):
+            return 1
+            yield
+
+    class Handler:
+        def __init__(self, x):
+            self.x = x
+
+        async def __call__(self):
+            return self.x
+    plain_classes = [Job, _asyncio.Future, int, Handler]
+    for cont in ("list", "iter", "async", "aiterable"):
+        for outer in (False, True):
+            log = []
+            c = {"list": lambda: LogList(log, plain_classes), "iter": lambda: LogIter(log, plain_classes), "async": lambda: LogAsync(log, plain_classes),
+                 "aiterable": lambda: LogAsyncIterable(log, plain_classes)}[cont]()
+            obj = c
+            if outer:
+                async def o(c=c):
+                    return c
+                obj = o()
+            try:
+                got = drive(take_n(a.any_iter(obj), 5, log))
+                why = None if len(got) == 4 and builtins.all(x is y for x, y in builtins.zip(got, plain_classes)) else "yielded %r" % (got,)
+            except BaseException as e:  # noqa
+                why = "failed with %r" % (e,)
+            rep.count(("any_iter-class-items", cont, outer), True)
+            if why:
+                fails += 1
+                rep.violation("adapters:any_iter", {"shape": [outer, cont, "class objects"], "why": "any_iter over plain items that are classes (of awaitables, of callables, int): " + why})
+    try:
+        inst = drive(a.sync(Handler)(5))
+        why = None if isinstance(inst, Handler) and inst.x == 5 else "await sync(Handler)(5) gave %r" % (inst,)
+    except BaseException as e:  # noqa
+        why = "await sync(Handler)(5) failed with %r" % (e,)
+    rep.count(("sync-class-with-async-call",), True)
+    if why:
+        fails += 1
+        rep.violation("adapters:sync", {"callable": "a class whose instances define async __call__", "why": why + " (calling the class is a synchronous call that returns an instance)"})
     # ---- await_each
     for n in range(0, 7):
         base = mk_items(n)
